@@ -277,7 +277,7 @@ def stream_mul_exhaustive(ctx, ad, ns, triples_n):
                 out = ad.out(r)
                 nontrivial = any(x and y for x, y in zip(ma, mb))
                 ctx.count('ps_mul_exhaustive', (n, ma, mb), nontrivial,
-                          sample=dict(a=str(ad.ps(a)), b=str(ad.ps(b)), product=str(r)))
+                          sample=dict(a=str(ad.ps(a)), b=str(ad.ps(b)), product=str(r)) if nontrivial and n == 3 else None)
                 kr = unit_exp(out[0])
                 if kr is None or any(k >= n for k, _ in out[1]):
                     mark_broken(ctx, 'correspondence:ps_mul_exhaustive', f'{a} * {b} gave {out}: not a unit coefficient on the operands\' qubits')
@@ -434,7 +434,8 @@ def stream_ps_random(ctx, ad, count):
             else:
                 r = pa * ad.mps(b) if rng.random() < 0.5 else ad.mps(b).__rmul__(pa)
             out = ad.out(r)
-            ctx.count('ps_mul', (a, b, form), shared > 0, sample=dict(a=str(pa), b=str(pb), product=str(r)))
+            ctx.count('ps_mul', (a, b, form), shared > 0,
+                      sample=dict(a=str(pa), b=str(pb), product=str(r), spelling=['PS*PS', 'Mutable*PS', 'PS*Mutable'][form]) if shared else None)
             R['mul'].add(f'({c_ps(a)}, {c_ps(b)}, {c_ps(out)})', f'{a} * {b} (form {form}) -> {out}')
             check_product_matrix(ctx, ad, 'ps_mul', [a, b], r, qs)
         # --- every way of reading the matrix off a string: matrix, sparse_matrix, unitary, simulation of the operation, decomposition
